@@ -47,7 +47,31 @@ let table : (string * schema list) list = [
   "BootstrapWitnesses", [bootstrapWitnesses]; "TransactionWitnessSet", [transactionWitnessSet depth];
   "Transaction", [transaction depth]; "VRFCert", [vRFCert]; "OperationalCert", [operationalCert];
   "HeaderBody", [headerBody; headerBodyPraos]; "Header", [header; headerPraos];
-  "Block", [block depth]; "Int", [intS] ]
+  "Block", [block depth; blockPraos depth]; "Int", [intS];
+  (* stand-alone members of the variant types and further public types (ledger_schemas_more) *)
+  "StakeRegistration", [stakeRegistration]; "StakeDeregistration", [stakeDeregistration];
+  "StakeDelegation", [stakeDelegation]; "PoolParams", [poolParams]; "PoolRegistration", [poolRegistration];
+  "PoolRetirement", [poolRetirement]; "GenesisKeyDelegation", [genesisKeyDelegation];
+  "MoveInstantaneousRewardsCert", [moveInstantaneousRewardsCert]; "VoteDelegation", [voteDelegation];
+  "StakeAndVoteDelegation", [stakeAndVoteDelegation]; "StakeRegistrationAndDelegation", [stakeRegistrationAndDelegation];
+  "VoteRegistrationAndDelegation", [voteRegistrationAndDelegation];
+  "StakeVoteRegistrationAndDelegation", [stakeVoteRegistrationAndDelegation]; "CommitteeHotAuth", [committeeHotAuth];
+  "CommitteeColdResign", [committeeColdResign]; "DRepRegistration", [dRepRegistration]; "DRepDeregistration", [dRepDeregistration];
+  "DRepUpdate", [dRepUpdate]; "SingleHostAddr", [singleHostAddr]; "SingleHostName", [singleHostName]; "MultiHostName", [multiHostName];
+  "Ipv4", [ipv4]; "Ipv6", [ipv6]; "URL", [uRL]; "DNSRecordAorAAAA", [dNSName]; "DNSRecordSRV", [dNSName]; "Committee", [committee];
+  "ParameterChangeAction", [parameterChangeAction]; "HardForkInitiationAction", [hardForkInitiationAction];
+  "TreasuryWithdrawalsAction", [treasuryWithdrawalsAction]; "NoConfidenceAction", [noConfidenceAction];
+  "UpdateCommitteeAction", [updateCommitteeAction]; "NewConstitutionAction", [newConstitutionAction];
+  "MetadataList", [metadataList depth]; "MetadataMap", [metadataMap depth]; "PlutusMap", [plutusMap depth];
+  "ConstrPlutusData", [constrPlutusData depth]; "BigInt", [bigInt]; "Redeemer", [redeemer depth]; "RedeemerTag", [redeemerTag];
+  "Language", [language]; "CostModel", [costModel]; "NetworkId", [networkId]; "Vkey", [vkey]; "AssetName", [assetNameS];
+  "PlutusScript", [plutusScriptBytes]; "MIRToStakeCredentials", [mIRToStakeCredentials];
+  "ScriptPubkey", [scriptPubkey]; "ScriptAll", [scriptAll (nat_of_int 2)]; "ScriptAny", [scriptAny (nat_of_int 2)];
+  "ScriptNOfK", [scriptNOfK (nat_of_int 2)]; "TimelockStart", [timelockStart]; "TimelockExpiry", [timelockExpiry];
+  "AssetNames", [assetNames]; "GenesisHashes", [genesisHashes]; "ScriptHashes", [scriptHashes]; "RewardAddresses", [rewardAddresses];
+  "TransactionMetadatumLabels", [transactionMetadatumLabels]; "BigNum", [bigNum];
+  "TransactionBodies", [transactionBodies depth]; "TransactionWitnessSets", [transactionWitnessSets depth];
+  "TransactionUnspentOutput", [transactionUnspentOutput depth]; "VersionedBlock", [versionedBlock depth] ]
 
 (* ---------- PRNG (SplitMix64) ---------- *)
 let st = ref 0L
@@ -192,8 +216,12 @@ let gen_mode seed tier out =
   st := Int64.of_string seed;
   ignore (next ());
   let oc = open_out out in
-  let per = if tier = "thorough" then 24 else 10 in
+  let per = if tier = "thorough" then 16 else 10 in
+  let extras = ref false in
   List.iter (fun (name, ss) ->
+      (* the stand-alone variant members share their wire shapes with the variant types: fewer seeds *)
+      if name = "StakeRegistration" then extras := true;
+      let per = if !extras then max 3 (per / 3) else per in
       List.iteri (fun si s ->
         let n = if si = 0 then per else max 2 (per / 3) in
         for i = 0 to n - 1 do
@@ -214,6 +242,15 @@ let gen_mode seed tier out =
           for b = 0 to 255 do try_ [na; n_of_int b] done
       done) table;
   close_out oc
+
+let deep = nat_of_int 300
+let deep_table : (string * schema list) list = [
+  "PlutusData", [plutusData deep]; "PlutusList", [plutusList deep]; "PlutusMap", [plutusMap deep];
+  "ConstrPlutusData", [constrPlutusData deep]; "Redeemer", [redeemer deep]; "Redeemers", [redeemers deep];
+  "TransactionMetadatum", [metadatum deep]; "MetadataList", [metadataList deep]; "MetadataMap", [metadataMap deep];
+  "GeneralTransactionMetadata", [generalTransactionMetadata deep] ]
+(* the versioned block wraps either header form; only the Praos form has a schema *)
+let lax_exceptions = ["VersionedBlock"; "Block"]   (* a block may also come without its fifth item (invalid transactions) *)
 
 (* ---------- predictions ---------- *)
 let hash_sizes = ["AnchorDataHash", 32; "AuxiliaryDataHash", 32; "BlockHash", 32; "DataHash", 32; "Ed25519KeyHash", 28;
@@ -239,7 +276,8 @@ let rec has_non_ascii_text (v : val0) : bool = match v with
   | _ -> false
 (* the array form of a transaction output looks at the item FOLLOWING it (data hash or next output), so bytes after
    the value are part of the decision for the types that can end in such an output *)
-let peeks_behind (name : string) = List.mem name ["TransactionOutput"; "TransactionOutputs"; "TransactionBody"; "Transaction"; "Block"]
+let peeks_behind (name : string) = List.mem name ["TransactionOutput"; "TransactionOutputs"; "TransactionBody"; "Transaction"; "Block";
+  "TransactionBodies"; "TransactionUnspentOutput"; "VersionedBlock"]
 
 let predict_schema (name : string) (bs : n list) : string =
   match List.assoc_opt name table with
@@ -253,7 +291,8 @@ let predict_schema (name : string) (bs : n list) : string =
            if r <> [] && peeks_behind name then "any"
            else if wfv s v && refined writer_form s v && not (has_non_ascii_text v) then begin
              let re = enc s v in
-             if re = consumed bs r then "ok " ^ hex_of_bytes re else "accept"
+             (* a stand-alone PlutusMap is re-serialised grouped by key (the writer's order is not the wire order) *)
+             if re = consumed bs r && name <> "PlutusMap" then "ok " ^ hex_of_bytes re else "accept"
            end else go rest
          | Err -> go rest
          | Panic -> "panic"
@@ -329,7 +368,27 @@ let strip_label (toks : string list) (n : int) : string list =
 
 let run_mode () = run_driver (fun toks impl ->
   match toks with
-  | "dec" :: name :: h :: _ -> let bs = bytes_of_hex h in (predict_dec name bs, verdict_str true bs impl)
+  | "dec" :: name :: h :: _ ->
+    let bs = bytes_of_hex h in
+    let p = predict_dec name bs in
+    (* Error predictions for inputs no exact model speaks about:
+       (i) the lenient acceptor of Total/Lax.v accepts every byte form the readers tolerate (in particular only
+           well-formed CBOR): what it refuses is an error.  Recursive types are schemas unrolled to a depth: Plutus
+           data / metadata are unrolled to 300 levels for this test (their unrolling shares the sub-schema, so this is
+           cheap); the types that contain native scripts stay at the table's depth and the refusal is only trusted
+           for inputs nested at most 8 deep (4 script levels need 9);
+       (ii) for the types without a schema: every CBOR reader of the library consumes exactly one data item and every
+           byte of it, so an input whose first item is not well-formed CBOR (Cbor/Item.v) is an error *)
+    let p = if p <> "any" then p else begin
+        match (match List.assoc_opt name deep_table with Some ss -> Some (ss, true) | None ->
+               (match List.assoc_opt name table with Some ss -> Some (ss, false) | None -> None)) with
+        | Some (ss, deep_ok) when not (List.mem name lax_exceptions) ->
+          if List.exists (fun s -> accepts s bs) ss then p
+          else if deep_ok || int_of_nat (input_depth bs) <= 8 then "err"
+          else if not (first_item_wf bs) then "err" else p
+        | _ -> if not (first_item_wf bs) then "err" else p
+      end in
+    (p, verdict_str true bs impl)
   | "raw" :: name :: h :: _ -> let bs = bytes_of_hex h in (predict_raw name bs, verdict_str false bs impl)
   | "hex" :: name :: h :: _ ->
     let cs = text_codes h in
